@@ -19,6 +19,10 @@ def check_C05(ctx):
     if mm2 is None:
         return
     report_mismatches(ctx, mm2, st2, "the tree invariant (walk terminates, listing = lookups, Nlink = number of names) is broken on the implementation or on the model state in %d histories")
+    # OrefaFS: model tie (C05_orefa_* are proved about Fs/OrefaFS.v) and the fixed witness histories
+    from .c01 import orefa_part, fs_corpus_part
+    orefa_part(ctx)
+    fs_corpus_part(ctx)
 
 
 CHECKS["C05"] = check_C05
